@@ -48,7 +48,10 @@ Record observed := {
   x_location : option bytes;
   (* what copies taken inside the handler show: Context.Clone() and Context.CloneWith(c.Writer(), c.Request()),
      each as (Route(), Pattern(), Params(), Scope()) *)
-  x_views : list (option (bytes * bytes) * bytes * list param * scope)
+  x_views : list (option (bytes * bytes) * bytes * list param * scope * list (bytes * bytes));
+  (* Context.Param(name) for every parameter name of every route registered on the router: (name, value);
+     the last component of a view is the same for the copy *)
+  x_named : list (bytes * bytes)
 }.
 
 (* lookup table entry: method, and (route, tsr, params of that match) or None *)
@@ -150,12 +153,25 @@ Definition url_view_agrees (k : kase) : bool :=
 (* Clone / CloneWith copies must show exactly what the context itself shows (Dispatch.clone,
    Dispatch.clone_with: DispatchProofs.clone_view / clone_with_view); the context's own view is compared
    with the model and the specification below, so this carries both over to the copies *)
-Definition view_agrees (x : observed) (vw : option (bytes * bytes) * bytes * list param * scope) : bool :=
-  let '(r, p, ps, sc) := vw in
-  opt_eqb (fun a b => bytes_eqb (fst a) (fst b) && bytes_eqb (snd a) (snd b)) r (x_route x) &&
-  bytes_eqb p (x_pattern x) && list_eqb param_eqb ps (x_params x) && scope_eqb sc (x_scope x).
+(* Context.Param(name): the value of the first parameter of that name, "" if there is none *)
+Fixpoint first_param (n : bytes) (ps : list param) : bytes :=
+  match ps with
+  | [] => []
+  | (k, v) :: r => if bytes_eqb k n then v else first_param n r
+  end.
 
-Definition views_agree (x : observed) : bool := forallb (view_agrees x) (x_views x).
+Definition named_agree (ps : list param) (named : list (bytes * bytes)) : bool :=
+  forallb (fun nv => bytes_eqb (snd nv) (first_param (fst nv) ps)) named.
+
+Definition view_agrees (x : observed)
+    (vw : option (bytes * bytes) * bytes * list param * scope * list (bytes * bytes)) : bool :=
+  let '(r, p, ps, sc, named) := vw in
+  opt_eqb (fun a b => bytes_eqb (fst a) (fst b) && bytes_eqb (snd a) (snd b)) r (x_route x) &&
+  bytes_eqb p (x_pattern x) && list_eqb param_eqb ps (x_params x) && scope_eqb sc (x_scope x) &&
+  named_agree (x_params x) named.
+
+Definition views_agree (x : observed) : bool :=
+  named_agree (x_params x) (x_named x) && forallb (view_agrees x) (x_views x).
 
 Definition model_agrees (v : variant) (k : kase) : bool :=
   url_view_agrees k &&
